@@ -119,7 +119,7 @@ func buildWitness(c *Case) []WOp {
 				continue
 			}
 			order = append(order, q)
-		case "leave":
+		case "leave", "partial":
 			q := peers[o.N]
 			if q.cut || q.st == 2 {
 				continue // the hub had dropped it already; its own unregister changes nothing
@@ -225,7 +225,7 @@ func (c Case) coq() string {
 			switch o.K {
 			case "join":
 				ops = append(ops, lib.App("OJoin", lib.App("mkreq", lib.N(o.N), lib.Str("/session/"+c.Topic+o.TS), lib.Str(c.Topic+o.TS), coqStrs(o.Scopes), fmt.Sprintf("(effective_cap (%d)%%Z)", c.confOrCap()))))
-			case "leave":
+			case "leave", "partial": // a connection that dies mid-message is simply gone: nothing of the part is relayed
 				ops = append(ops, lib.App("OLeave", lib.N(o.N)))
 			case "send":
 				ops = append(ops, lib.App("OSend", lib.N(o.N), lib.N(uint64(o.MT)), lib.N(uint64(o.Size)), coqNs(symsOf(o))))
